@@ -61,7 +61,9 @@ func (l *limitReadCloser) Read(p []byte) (n int, err error) {
 		if l.N == -1 {
 			n--
 		}
-		if err == nil {
+		// Also when the source returned the extra byte together with io.EOF:
+		// the stream was longer than the limit and must not end cleanly
+		if err == nil || errors.Is(err, io.EOF) {
 			err = ErrStreamTooLarge
 		}
 		if !l.closed {
